@@ -127,6 +127,11 @@ def run(ck: Checker):
             continue
         for c in calls_in(a):
             r, me = method_of(c)
+            if me == 'append' and isinstance(r, ast.Name) and c.args and not isinstance(c.args[0], ast.Name) and any(isinstance(x_, ast.Call) and method_of(x_)[1] in ('get', 'get_nowait') for x_ in ast.walk(c.args[0])):
+                # what comes off the buffer goes into the batch untested: the end marker too
+                na += 1
+                ck.ob('C09-1', f, n.ast, False, f'`{norm_text(c)[:60]}` puts whatever the buffer holds into the batch without the end-marker test: a shutdown marker queued behind the last request becomes an element of its batch, the worker loop dies taking the pairs apart, and the request is never answered')
+                continue
             if me == 'append' and isinstance(r, ast.Name) and c.args and isinstance(c.args[0], ast.Name):
                 na += 1
                 outname = r.id
@@ -148,6 +153,12 @@ def run(ck: Checker):
     _c04.check_wrap_arguments(ck, 'C09-10', ck.repo.func(WORKER, 'Worker._build_input_batches'))
     # ---------------------------------------------------------------- C09-3
     check_one_destination(ck, 'C09-3')
+    # ---------------------------------------------------------------- C09-13
+    ck.rule('C09-13', 'no request waits for a full batch, also with batch_wait_time=0: the timeout of the batch buffer\'s get / put reaches the condition wait as given — 0 is "do not wait", and `timeout or None` turns it into "wait for ever" (the batch consumer then sits on a lone request until a second one arrives)', minimum=2)
+    from .common import check_timeout_passthrough as _ctp
+
+    sl13 = ck.repo.cls(QUEUES, 'SingleLane')
+    _ctp(ck, 'C09-13', [sl13.method('get'), sl13.method('put')])
     # ---------------------------------------------------------------- C09-12
     ck.rule('C09-12', 'the batch size the caller configured is the batch size the worker runs with: Worker.__init__ replaces `None` (by 0, no batching) and nothing else — decided by evaluating the tests of the constructor over representative sizes (None, 0, 1, 2, 7): `batch_size=1` must stay 1, a worker configured so receives one-element lists, not bare elements (finite-domain evaluation)')
     from mpsa.absval import walk as _walk
